@@ -1,7 +1,7 @@
 (* Props/C08.v -- the property theorems of C08 (second half: ownership violations are rejected),
    over the model C08/Borrow.v of the borrow checker and the declarative semantics C08/Spec.v. *)
 From Coq Require Import List Bool Arith.
-From C08 Require Import Lowered Borrow Spec Sound.
+From C08 Require Import Lowered Borrow Spec Sound Complete.
 Import ListNotations.
 
 (* Soundness of the borrow checker (model of borrow_check/{mod,demand}.rs + analysis/backward.rs)
@@ -50,4 +50,29 @@ Example C08_example_diamond :
   exec_path ex_diamond (Path [1; 3] PEnd) = Good /\ exec_path ex_diamond (Path [2; 3] PEnd) = Good.
 Proof. repeat split; vm_compute; reflexivity. Qed.
 
+(* Completeness on the shape the mutation generator injects (NOT full completeness w.r.t. Spec.v):
+   in a block reachable from the root, a non-copyable variable that is used twice - twice in one
+   input list, or by two statements with no re-introduction in between ([double_use]) - is reported
+   as VariableMoved, provided the analysis itself terminates normally. *)
+Theorem C08_moved_detected : forall (L : lowered) (b : blockid) (blk : block) (v : var),
+  ~ In (InternalError 0) (borrow_check L) ->
+  reach L 0 b -> get_block L b = Some blk ->
+  copyable L v = false -> double_use v (b_stmts blk) ->
+  exists l, In (VariableMoved v l) (borrow_check L).
+Proof. exact moved_detected. Qed.
+
+Example C08_example_moved_detected_applies :
+  ~ In (InternalError 0) (borrow_check ex_uam) /\ reach ex_uam 0 0 /\ copyable ex_uam 1 = false /\
+  double_use 1 [SStructConstruct [] 1; SCall false 2 [(1, 3)] []; SCall false 4 [(1, 5)] []].
+Proof.
+  repeat split.
+  - vm_compute. intros [H|[]]. discriminate.
+  - apply reach_refl.
+  - apply du_skip. apply du_split.
+    + cbv. auto.
+    + cbv. auto.
+    + apply ul_here. cbv. auto.
+Qed.
+
 Print Assumptions C08_borrow_sound.
+Print Assumptions C08_moved_detected.
